@@ -318,6 +318,43 @@ func prop(c Case) error {
 				return fmt.Errorf("%s: the text returned changed when the same encoder encoded a point afterwards: now %q, was %q", how, clip(got), clip(was))
 			}
 		}
+		// the caller moves the geometry in place (every ordinate v becomes v/2 + 0.125, as a
+		// transform applied to FlatCoords does) and encodes it again with the same limit:
+		// the text is the one a geometry built anew from the moved coordinates gets
+		{
+			move := func(v float64) float64 { return v/2 + 0.125 }
+			if before, err := wkt.Marshal(t, wopts...); err != nil || before != text {
+				return fmt.Errorf("wkt.Marshal, limit %d, once more: %q, %v; before %q", c.D, clip(before), err, clip(text))
+			}
+			for _, lf := range model.Leaves(t) {
+				for i := range lf.Flat {
+					lf.Flat[i] = move(lf.Flat[i])
+				}
+			}
+			fresh, err := model.Build(g.Mapped(move), model.RouteSetCoords)
+			if err != nil {
+				return fmt.Errorf("build of the moved geometry: %v", err)
+			}
+			wantMoved, err := wkt.NewEncoder(wkt.EncodeOptionWithMaxDecimalDigits(c.D)).Encode(fresh)
+			if err != nil {
+				return fmt.Errorf("Encode of the moved geometry built anew: %v", err)
+			}
+			if got, err := wkt.Marshal(t, wopts...); err != nil || got != wantMoved {
+				return fmt.Errorf("wkt.Marshal, limit %d, after the geometry was moved in place: %q, %v; the same coordinates built anew give %q", c.D, clip(got), err, clip(wantMoved))
+			}
+			if got, err := e1.Encode(t); err != nil || got != wantMoved {
+				return fmt.Errorf("an encoder that wrote the geometry before, limit %d, after the geometry was moved in place: %q, %v; the same coordinates built anew give %q", c.D, clip(got), err, clip(wantMoved))
+			}
+			// and back (the steps below look at the geometry as it was)
+			back := model.Leaves(t)
+			orig, err := model.Build(g, model.RouteSetCoords)
+			if err != nil {
+				return fmt.Errorf("build: %v", err)
+			}
+			for k, lf := range model.Leaves(orig) {
+				copy(back[k].Flat, lf.Flat)
+			}
+		}
 		// after all that, no option given means no limit: Marshal without options and a new
 		// encoder without options write the same text (and it says the ordinates exactly)
 		plain, err := wkt.Marshal(t)
